@@ -487,7 +487,7 @@ func (p retryParams) scenarios(rng *rand.Rand) []scen.Scenario {
 					kind = fmt.Sprintf("refuseopen:%d", 1+rng.Intn(5))
 				case 3:
 					if i%4 == 0 {
-						kind = scen.DropResp // only in plans that configure a response timeout (below)
+						kind = []string{scen.DropResp, scen.DropReq}[rng.Intn(2)] // only in plans that configure a response timeout (below)
 					}
 				}
 				f = append(f, scen.Fault{At: at, Kind: kind})
@@ -504,7 +504,7 @@ func (p retryParams) scenarios(rng *rand.Rand) []scen.Scenario {
 			}
 			hasDrop := false
 			for _, x := range f {
-				if x.Kind == scen.DropResp {
+				if x.Kind == scen.DropResp || x.Kind == scen.DropReq {
 					hasDrop = true
 				}
 			}
@@ -524,6 +524,9 @@ func (p retryParams) scenarios(rng *rand.Rand) []scen.Scenario {
 		withResp := func(s *scen.Scenario) { s.RespMs, s.TimeoutMs = 8, 40 }
 		for k := 2; k <= n+1; k++ {
 			add([]scen.Fault{{At: k, Kind: scen.DropResp}}, nil, withResp)
+			// the request itself is swallowed by a stalled link (the broker never sees it), alone and followed by a cut
+			add([]scen.Fault{{At: k, Kind: scen.DropReq}}, nil, withResp)
+			add([]scen.Fault{{At: k, Kind: scen.DropReq}, {At: k + 1, Kind: scen.CutKinds[k%4]}}, nil, withResp)
 			for d := 1; d <= 3; d++ {
 				kind := scen.CutKinds[(k+d)%4]
 				add([]scen.Fault{{At: k, Kind: scen.DropResp}, {At: k + d, Kind: kind}}, nil, withResp)
@@ -819,7 +822,7 @@ func fuzzScenario(rng *rand.Rand) scen.Scenario {
 			kind = fmt.Sprintf("refuseopen:%d", 1+rng.Intn(5))
 		case 3, 4:
 			if drops {
-				kind = scen.DropResp
+				kind = []string{scen.DropResp, scen.DropReq}[rng.Intn(2)]
 			}
 		}
 		if kind == scen.NoConnack {
